@@ -50,6 +50,7 @@ typedef struct
 
 } Skinny128CTRVec128Ctx_t;
 
+static void skinny128_ctr_vec128_rewind(Skinny128CTRVec128Ctx_t *ctx);
 static int skinny128_ctr_vec128_set_counter
     (Skinny128CTR_t *ctr, const void *counter, unsigned size);
 
@@ -94,8 +95,8 @@ static int skinny128_ctr_vec128_set_key
     if (!skinny128_set_key(&(ctx->kt.ks), key, size))
         return 0;
 
-    /* Reset the keystream */
-    ctx->offset = SKINNY128_CTR_BLOCK_SIZE;
+    /* Reset the keystream to the next unused block */
+    skinny128_ctr_vec128_rewind(ctx);
     return 1;
 }
 
@@ -115,8 +116,8 @@ static int skinny128_ctr_vec128_set_tweaked_key
     if (!skinny128_set_tweaked_key(&(ctx->kt), key, key_size))
         return 0;
 
-    /* Reset the keystream */
-    ctx->offset = SKINNY128_CTR_BLOCK_SIZE;
+    /* Reset the keystream to the next unused block */
+    skinny128_ctr_vec128_rewind(ctx);
     return 1;
 }
 
@@ -134,8 +135,8 @@ static int skinny128_ctr_vec128_set_tweak
     if (!skinny128_set_tweak(&(ctx->kt), tweak, tweak_size))
         return 0;
 
-    /* Reset the keystream */
-    ctx->offset = SKINNY128_CTR_BLOCK_SIZE;
+    /* Reset the keystream to the next unused block */
+    skinny128_ctr_vec128_rewind(ctx);
     return 1;
 }
 
@@ -158,6 +159,41 @@ STATIC_INLINE void skinny128_ctr_increment
         ptr[0] = (uint8_t)inc;
         inc >>= 8;
     }
+}
+
+/* Decrement a specific column in an array of row vectors */
+STATIC_INLINE void skinny128_ctr_decrement
+    (SkinnyVector4x32_t *counter, unsigned column, unsigned dec)
+{
+    uint8_t *ctr = ((uint8_t *)counter) + column * 4;
+    uint8_t *ptr;
+    unsigned index;
+    for (index = 16; index > 0; ) {
+        --index;
+        ptr = ctr + (index & 0x0C) * 4;
+#if SKINNY_LITTLE_ENDIAN
+        ptr += index & 0x03;
+#else
+        ptr += 3 - (index & 0x03);
+#endif
+        dec = ptr[0] - dec;
+        ptr[0] = (uint8_t)dec;
+        dec = (dec >> 8) & 1; /* borrow */
+    }
+}
+
+/* Called when the key or tweak changes.  Discards the buffered keystream
+   and rewinds the counter so that the stream resumes with the first block
+   that has not been used yet, exactly as the generic back end does */
+static void skinny128_ctr_vec128_rewind(Skinny128CTRVec128Ctx_t *ctx)
+{
+    if (ctx->offset < SKINNY128_CTR_BLOCK_SIZE) {
+        unsigned unused = (SKINNY128_CTR_BLOCK_SIZE - ctx->offset) / SKINNY128_BLOCK_SIZE;
+        unsigned column;
+        for (column = 0; column < 4; ++column)
+            skinny128_ctr_decrement(ctx->counter, column, unused);
+    }
+    ctx->offset = SKINNY128_CTR_BLOCK_SIZE;
 }
 
 static int skinny128_ctr_vec128_set_counter
